@@ -823,4 +823,158 @@ theorem visible_after_return (s s' : Sys) (h : Inv s) (g : GInv s) (hr : s.relOk
 #print axioms ginv_step
 #print axioms once_per_index
 #print axioms visible_after_return
+
+/-! ### executable step function (what the driver's trace acceptor runs) and its soundness -/
+
+inductive Act
+  | begin | send | sendDone | crun | check | park | worker (i : Nat) | dropPool | wexit (i : Nat)
+  deriving Repr
+
+def stepFn (s : Sys) : Act → Option Sys
+  | .begin =>
+    match s.c, s.todo, s.dropped with
+    | .idle, n' :: rest, false =>
+      some { s with todo := rest, n := n', m := max s.m n', c := .send 0, rc := n', valid := true,
+                    w := fun j => restale (s.w j),
+                    runs := fun _ => 0, pub := fun _ => false, seen := fun _ => false }
+    | _, _, _ => none
+  | .send =>
+    match s.c with
+    | .send i => if i < s.n ∧ s.w i = .idle then some { s with c := .send (i+1), w := upd s.w i .run } else none
+    | _ => none
+  | .sendDone =>
+    match s.c with
+    | .send i => if ¬ i < s.n then some { s with c := .run } else none
+    | _ => none
+  | .crun => if s.c = .run then some { s with c := .check } else none
+  | .check =>
+    if s.c = .check then
+      if s.rc = 0 then
+        some { s with c := .idle, valid := false, done := s.done + 1,
+                      seen := if s.acqOk then (fun j => s.seen j || s.pub j) else s.seen }
+      else some { s with c := .park, seen := if s.acqOk then (fun j => s.seen j || s.pub j) else s.seen }
+    else none
+  | .park => if s.c = .park ∧ s.tok = true then some { s with c := .check, tok := false } else none
+  | .worker i =>
+    match s.w i with
+    | .run => some { s with w := upd s.w i .clone, runs := updG s.runs i (s.runs i + 1) }
+    | .clone => if s.valid = true then some { s with w := upd s.w i .dec } else none
+    | .dec =>
+      if s.valid = true then
+        if s.rc = 1 then
+          some { s with w := upd s.w i .unpark, rc := s.rc - 1, pub := if s.relOk then updG s.pub i true else s.pub }
+        else
+          some { s with w := upd s.w i .after, rc := s.rc - 1, pub := if s.relOk then updG s.pub i true else s.pub }
+      else none
+    | .unpark => some { s with w := upd s.w i .after, tok := true }
+    | .after => some { s with w := upd s.w i .fin }
+    | .unparkS => some { s with w := upd s.w i .afterS, tok := true }
+    | .afterS => some { s with w := upd s.w i .idle }
+    | _ => none
+  | .dropPool =>
+    match s.c, s.todo, s.dropped with
+    | .idle, [], false => some { s with dropped := true }
+    | _, _, _ => none
+  | .wexit i =>
+    if s.dropped = true ∧ i < s.m ∧ (s.w i = .idle ∨ s.w i = .fin) then some { s with w := upd s.w i .exited } else none
+
+theorem stepFn_sound (s s' : Sys) (a : Act) (h : stepFn s a = some s') : Step s s' := by
+  cases a with
+  | begin =>
+    simp only [stepFn] at h
+    split at h
+    · rename_i n' rest hc ht hd; cases h; exact Step.begin s n' rest hc ht hd
+    · cases h
+  | send =>
+    simp only [stepFn] at h
+    split at h
+    · rename_i i hc
+      split at h
+      · rename_i hg; cases h; exact Step.send s i hc hg.1 hg.2
+      · cases h
+    · cases h
+  | sendDone =>
+    simp only [stepFn] at h
+    split at h
+    · rename_i i hc
+      split at h
+      · rename_i hg; cases h; exact Step.sendDone s i hc hg
+      · cases h
+    · cases h
+  | crun =>
+    simp only [stepFn] at h
+    split at h
+    · rename_i hc; cases h; exact Step.crun s hc
+    · cases h
+  | check =>
+    simp only [stepFn] at h
+    split at h
+    · rename_i hc
+      split at h
+      · rename_i hz; cases h; exact Step.checkZero s hc hz
+      · rename_i hz; cases h; exact Step.checkPos s hc hz
+    · cases h
+  | park =>
+    simp only [stepFn] at h
+    split at h
+    · rename_i hg; cases h; exact Step.park s hg.1 hg.2
+    · cases h
+  | worker i =>
+    simp only [stepFn] at h
+    split at h
+    · rename_i hw; cases h; exact Step.wrun s i hw
+    · rename_i hw
+      split at h
+      · rename_i hv; cases h; exact Step.wclone s i hw hv
+      · cases h
+    · rename_i hw
+      split at h
+      · rename_i hv
+        split at h
+        · rename_i h1; cases h; exact Step.wdecLast s i hw hv h1
+        · rename_i h1; cases h; exact Step.wdec s i hw hv h1
+      · cases h
+    · rename_i hw; cases h; exact Step.wunpark s i hw
+    · rename_i hw; cases h; exact Step.wafter s i hw
+    · rename_i hw; cases h; exact Step.wunparkS s i hw
+    · rename_i hw; cases h; exact Step.wafterS s i hw
+    · cases h
+  | dropPool =>
+    simp only [stepFn] at h
+    split at h
+    · rename_i hc ht hd; cases h; exact Step.dropPool s hc ht hd
+    · cases h
+  | wexit i =>
+    simp only [stepFn] at h
+    split at h
+    · rename_i hg; cases h; exact Step.wexit s i hg.1 hg.2.1 hg.2.2
+    · cases h
+
+/-- replay an observed action sequence; `none` = the model rejects it at that point -/
+def replay (s : Sys) : List Act → Option Sys
+  | [] => some s
+  | a :: as => (stepFn s a).bind (replay · as)
+
+/-- whatever the acceptor accepts is a run of the relation the theorems are about, hence satisfies the invariants -/
+theorem replay_inv (s : Sys) (as : List Act) (s' : Sys) (h : Inv s) (g : GInv s) (hr : replay s as = some s') :
+    Inv s' ∧ GInv s' := by
+  induction as generalizing s with
+  | nil => simp [replay] at hr; subst hr; exact ⟨h, g⟩
+  | cons a as ih =>
+    simp only [replay] at hr
+    cases hs : stepFn s a with
+    | none => simp [hs] at hr
+    | some s1 =>
+      simp [hs] at hr
+      have st := stepFn_sound s s1 a hs
+      exact ih s1 (inv_step s s1 h st) (ginv_step s s1 h g st) hr
+
+-- one broadcast with two workers, the second finishing last, then drop
+#eval (replay (init [2] false true true)
+  [.begin, .send, .send, .sendDone, .crun, .worker 0, .worker 0, .worker 0, .check, .worker 1, .worker 1,
+   .worker 1, .worker 1, .park, .check, .worker 0, .worker 1, .dropPool, .wexit 0, .wexit 1]).map
+  (fun s => (s.done, s.rc, s.tok, s.dropped, (List.range 2).map s.runs, (List.range 2).map s.seen))
+
+#print axioms stepFn_sound
+#print axioms replay_inv
 end PoolFull
